@@ -39,13 +39,35 @@ def _prog(cmd):
         if k not in ("t_length", "t_dir", "count", "alloclen", "alloc_len"):
             a[k] = 1 if L.width(spec["fields"][k]) == 1 else 3
     cls = K.get_class(spec)
+    # "use" includes the command's parameter data: EXTENDED COPY marshals an identification descriptor and a segment,
+    # INQUIRY decodes and rebuilds a Device Identification page (concrete values; the schedule is what is symbolic)
+    import copy
+    from symx.ctx import ConcreteCtx
+    cc = ConcreteCtx({})
+    xc = None
+    page = None
+    if cmd.startswith("EXTENDED COPY"):
+        from . import c05
+        lid = 1 if cmd.endswith("(LID1)") else 4
+        key = "target_descriptor_list" if lid == 1 else "cscd_descriptor_list"
+        xc = {key: [c05._target(cc, lid, 0, "naa5", "t_")], "segment_descriptor_list": [c05._segment(cc, lid, 2, "s_")]}
+    if cmd == "INQUIRY":
+        from spec import responses as R
+        page = bytearray(R.vpd_device_identification(cc, ["t10", "naa5"], concrete_headers=True)[0])
 
     def run():
-        c = K.build(spec, opcode, a, e)
+        if xc is not None:
+            c = cls(opcode, **copy.deepcopy(xc))
+        else:
+            c = K.build(spec, opcode, a, e)
         d = dict(cls.unmarshall_cdb(c.cdb))
         raw = cls.marshall_cdb(d)
+        extra = bytes(c.dataout) if xc is not None else b""
+        if page is not None:
+            dec = cls.unmarshall_datain(bytearray(page), evpd=1)
+            extra = bytes(cls.marshall_datain(dec))
         return (bytes(c.cdb), sorted((k, int(v) if not isinstance(v, (bytes, bytearray)) else bytes(v)) for k, v in d.items()),
-                bytes(raw), len(c.datain))
+                bytes(raw), len(c.datain), extra)
     return run
 
 
